@@ -141,6 +141,7 @@ fn run_family(name: &str, inputs: &[String], fam: &mut BTreeMap<String, Json>, a
         let mut o = Out::default();
         for i in r {
             o.n += 1;
+            mc::watch::progress(|| case_line(&inputs[i]));
             match round_trip(&inputs[i]) {
                 Verdict::NotAccepted => {}
                 Verdict::Ok { lines } => {
